@@ -10,7 +10,8 @@ SEED=$ROOT/seeded/$NAME
 WT=/root/vscratch/seed-$NAME-$$
 git -C /repo worktree add -q --detach $WT HEAD || exit 2
 trap 'git -C /repo worktree remove --force $WT >/dev/null 2>&1; rm -rf $WT' EXIT
-git -C $WT apply $SEED/patch.diff || { echo "patch does not apply"; exit 2; }
+git -C $WT apply $SEED/patch.diff 2>/dev/null || git -C $WT apply -3 $SEED/patch.diff >/dev/null 2>&1 || { echo "patch does not apply"; exit 2; }
+if git -C $WT diff --name-only --diff-filter=U | grep -q .; then echo "patch conflicts with the current tree"; exit 2; fi
 OUT=$(cd $ROOT && VERIF_REPO=$WT VERIF_EXTRA=-no-evidence ./run.sh $PROP $TIER 2>&1)
 RC=$?
 echo "$OUT" | grep -E "^(VIOLATION|  check=|SUMMARY|INCONCLUSIVE|KNOWN)" | cut -c1-260 | head -12
